@@ -1,8 +1,10 @@
 """C19 — @inject is equivalent to explicit lookups in the current context."""
 import random
 
+from ..core import Composite
 from ..gen_kernel import KGen
 from ..kernel_prop import KernelProp
+from ..startup_prop import StartupProp
 
 
 class InjGen(KGen):
@@ -14,7 +16,8 @@ class InjGen(KGen):
         return super().task()
 
 
-class C19(KernelProp):
+class C19Kernel(KernelProp):
+    kinds = ("ctx",)
     id = "C19"
     tags = ("C19",)
     quick_cases = 700
@@ -90,6 +93,28 @@ class C19(KernelProp):
                 if r["res"] == ["notFound"]:
                     return True
         return False
+
+
+class C19Startup(StartupProp):
+    """Injected coroutine functions called from a component's start()/prepare(): the lookup they stand for is the
+    component's own get_resource(), which waits for a sibling to publish what is missing."""
+    id = "C19"
+    kinds = ("startup",)
+    tags = ("C19", "C06")
+    gen_kwargs = {"max_nodes": 8, "max_depth": 3, "p_await": 0.9, "p_stuck": 0.0, "p_fail": 0.0, "p_opt": 0.1}
+
+    def nontrivial(self, case, impl):
+        return any(a.get("inject") for s in case["prog"] for ph in ("prepare", "start") for a in (s[ph] or []))
+
+
+class C19(Composite):
+    id = "C19"
+    quick_cases = C19Kernel.quick_cases
+    thorough_cases = C19Kernel.thorough_cases
+    parts = [(8, C19Kernel()), (1, C19Startup())]
+    rule = C19Kernel.rule + ("; one case in nine is a component tree start-up in which a third of the resource requests are "
+                             "made by calling an injected coroutine function")
+    assumptions = C19Kernel.assumptions
 
 
 PROP = C19()
